@@ -46,7 +46,7 @@ pub fn scenario(name: &str, params: &Value) -> Scenario {
             specs.push(OpSpec::Publish(PublishSpec::simple(1, "t/c", b"three")));
         }
         let devs = |s: &Sys| {
-            let mut d = sched_deviations(s, false, true);
+            let mut d = sched_deviations(s, true, true);
             if s.m.ctx == CtxSt::Running && outstanding(&s.m).len() < 3 {
                 d.push(Ev::StartHeld(OpSpec::Publish(PublishSpec::simple(1, "t/h", b"held"))));
             }
